@@ -83,6 +83,7 @@ class TextFileStorage(Storage[str]):
         self._file_paths = self._manager.list()
         self._file = None
         self._process_identifier = None
+        self._process_identifier_pid = None
 
         self._index: List[Optional[Tuple[int, int]]] = self._manager.list()  # (process_identifier, file_offset)
         if number_of_data is not None:
@@ -113,6 +114,12 @@ class TextFileStorage(Storage[str]):
             # we are not writing
             return
 
+        if self._process_identifier is not None and self._process_identifier_pid != os.getpid():
+            # the identifier (and maybe an opened file) was inherited from the parent process, every process writes to its
+            # own file (a file reopened for appending would not see the offsets moved by the other process)
+            self._file = None
+            self._process_identifier = None
+
         if self._file is not None:
             # already opened
             return
@@ -120,6 +127,7 @@ class TextFileStorage(Storage[str]):
         if self._process_identifier is None:
             with self._storage_lock:
                 self._process_identifier = len(self._file_paths)
+                self._process_identifier_pid = os.getpid()
                 path = self._path + "/" + self._file_prefix + "_" + str(self._process_identifier)
                 self._file_paths.append(path)
             self._file = open(path, "w")
